@@ -62,6 +62,10 @@ CONSTANTS
   Modes,        \* subset of {"pruned", "archival", "convert"}; "convert" = archival node restarted as pruned
   MaxRestarts,  \* bound on Restart
   MaxDeletes,   \* bound on header-store tail deletions
+  MaxReadFaults,\* bound on header-store read failures (Tail / GetByHeight / Head / GetRangeByHeight returning an
+                \* error: a transient datastore error, or the service context cancelled by Stop)
+  MaxAbortFaults,\* (<= MaxReadFaults) a failure that ends a whole cycle (CycleAbort, the finder) is taken only while
+                \* fewer than this many failures have happened: keeps simulation from spending the budget on them
   IntraHead,    \* TRUE: the head may also grow between two batches of one cycle (findPruneableHeaders reads
                 \* Head() afresh for every batch; growth between its two reads of one call is not modelled)
   Fix13,        \* TRUE: repaired batch loop (see above)
@@ -94,7 +98,8 @@ VARIABLES
   retryTodo,    \* failed heights still to retry in this cycle
   batch, idx, fset,         \* headers of the current batch, next index, failedSet
   od,           \* 0, or the height pruneOnHeaderDelete is working on between its critical sections
-  restarts, deletes,
+  restarts, deletes, rfaults,
+  fresh,        \* the cycle has just begun: no retry / find step taken yet
   store,        \* [1..N -> {"odsq4","ods","none"}] what the EDS store holds (all blocks start as ODS+Q4)
   okPruned,     \* ghost: heights with a successful Prune call since the last checkpoint reset
   inside,       \* ghost: heights handed to Prune while their timestamp was inside the window
@@ -111,11 +116,11 @@ cpVars   == <<cpLast, cpFailed>>
 pVars    == <<pLast, pFailed>>
 cycVars  == <<pc, lp, retryTodo, batch, idx, fset>>
 ghost    == <<okPruned, inside, startPt, skipped, dropped>>
-vars     == <<cfgVars, modeVars, hsVars, cpVars, pVars, cycVars, od, restarts, deletes, store, ghost,
-              justEnded, dirty, act, hist>>
+vars     == <<cfgVars, modeVars, hsVars, cpVars, pVars, cycVars, od, restarts, deletes, rfaults, fresh, store,
+              ghost, justEnded, dirty, act, hist>>
 \* the state as far as exhaustive exploration is concerned (act/hist only label the path)
-View     == <<cfgVars, modeVars, hsVars, cpVars, pVars, cycVars, od, restarts, deletes, store, ghost,
-              justEnded, dirty>>
+View     == <<cfgVars, modeVars, hsVars, cpVars, pVars, cycVars, od, restarts, deletes, rfaults, fresh, store,
+              ghost, justEnded, dirty>>
 
 Min(S) == CHOOSE x \in S : \A y \in S : x <= y
 
@@ -193,7 +198,7 @@ Init ==
   \* a fresh node: NewService, Start -> loadCheckpoint finds nothing -> resetCheckpoint (persisted)
   /\ cpLast = tail /\ cpFailed = {} /\ pLast = tail /\ pFailed = {}
   /\ pc = "start" /\ lp = 0 /\ retryTodo = {} /\ batch = <<>> /\ idx = 0 /\ fset = {}
-  /\ od = 0 /\ restarts = 0 /\ deletes = 0
+  /\ od = 0 /\ restarts = 0 /\ deletes = 0 /\ rfaults = 0 /\ fresh = FALSE
   /\ store = [h \in 1..N |-> "odsq4"]
   /\ okPruned = {} /\ inside = {} /\ startPt = tail /\ skipped = {} /\ dropped = {}
   /\ justEnded = FALSE /\ dirty = FALSE
@@ -208,37 +213,55 @@ Init ==
 (* calls on different heights commute, the model takes ascending order).   *)
 RetryStep ==
   /\ UNCHANGED dirty
+  /\ fresh' = FALSE
   /\ pc = "retry" /\ retryTodo # {}
   /\ LET h == Min(retryTodo)
-         gone == h < tail \/ h > head                        \* GetByHeight fails: logged, skipped
-     IN \E ok \in (IF gone THEN {FALSE} ELSE BOOLEAN) :
+         gone == h < tail \/ h > head                        \* the header does not exist: GetByHeight fails
+         outs == IF gone THEN {"gone"}
+                 ELSE {"ok", "fail"} \cup (IF rfaults < MaxReadFaults THEN {"rfail"} ELSE {})
+     IN \E o \in outs :
           /\ retryTodo' = retryTodo \ {h}
-          /\ IF gone THEN NoCall ELSE Called(h, ok)
-          /\ cpFailed' = IF ok THEN cpFailed \ {h} ELSE cpFailed
+          \* `h, err := s.hstore.GetByHeight(ctx, failed); if err != nil { log; continue }`: the height is
+          \* neither pruned nor removed from the failed set
+          /\ IF o \in {"gone", "rfail"} THEN NoCall ELSE Called(h, o = "ok")
+          /\ cpFailed' = IF o = "ok" THEN cpFailed \ {h} ELSE cpFailed
+          /\ rfaults' = IF o = "rfail" THEN rfaults + 1 ELSE rfaults
           /\ justEnded' = FALSE
           /\ UNCHANGED <<cfgVars, modeVars, hsVars, cpLast, pVars, pc, lp, batch, idx, fset, od, restarts,
                          deletes, startPt, skipped, dropped>>
-          /\ Log([n |-> (IF gone THEN "RetrySkip" ELSE "Retry"), h |-> h, ok |-> ok])
+          /\ Log([n |-> (IF o \in {"gone", "rfail"} THEN "RetrySkip" ELSE "Retry"), h |-> h, ok |-> (o = "ok"),
+                  rf |-> (o = "rfail")])
 
 (* findPruneableHeaders(); `err != nil || len(headers) == 0` ends the cycle *)
 FindStep ==
+  /\ fresh' = FALSE
   /\ UNCHANGED dirty
   /\ \/ pc = "find"
      \/ pc = "retry" /\ retryTodo = {}
   /\ NoCall
   /\ UNCHANGED <<cfgVars, modeVars, hsVars, cpVars, pVars, lp, retryTodo, od, restarts, deletes,
                  startPt, skipped, dropped>>
-  /\ LET hs == Find(lp) IN
-     IF hs = <<>>
-     THEN /\ pc' = "idle" /\ justEnded' = TRUE
-          /\ batch' = <<>> /\ idx' = 0 /\ fset' = {}
-          /\ Log([n |-> "CycleEnd", h |-> lp, ok |-> TRUE])
-     ELSE /\ pc' = "prune" /\ justEnded' = FALSE
-          /\ batch' = hs /\ idx' = 1 /\ fset' = {}
-          /\ Log([n |-> "Batch", h |-> hs[1], ok |-> TRUE, hs |-> hs])
+  /\ \/ /\ UNCHANGED rfaults
+        /\ LET hs == Find(lp) IN
+           IF hs = <<>>
+           THEN /\ pc' = "idle" /\ justEnded' = TRUE
+                /\ batch' = <<>> /\ idx' = 0 /\ fset' = {}
+                /\ Log([n |-> "CycleEnd", h |-> lp, ok |-> TRUE])
+           ELSE /\ pc' = "prune" /\ justEnded' = FALSE
+                /\ batch' = hs /\ idx' = 1 /\ fset' = {}
+                /\ Log([n |-> "Batch", h |-> hs[1], ok |-> TRUE, hs |-> hs])
+     \/ \* a read of the header store fails inside findPruneableHeaders: prune() returns, the cycle is over
+        \* (what was checkpointed so far stays; the next cycle goes on from there)
+        /\ rfaults < MaxAbortFaults
+        /\ rfaults' = rfaults + 1
+        /\ pc' = "idle" /\ justEnded' = FALSE
+        /\ batch' = <<>> /\ idx' = 0 /\ fset' = {}
+        /\ Log([n |-> "FindFail", h |-> lp, ok |-> FALSE])
 
 (* one s.pruner.Prune(ctx, eh) of the batch.  service.go:197-209           *)
 PruneStep ==
+  /\ fresh' = FALSE
+  /\ UNCHANGED rfaults
   /\ UNCHANGED dirty
   /\ pc = "prune" /\ idx <= Len(batch)
   /\ idx' = idx + 1
@@ -255,6 +278,8 @@ PruneStep ==
 (* updateCheckpoint(lastPrunedHeader.Height(), failedSet) -- persisted --  *)
 (* and the loop condition `len(headers) < maxHeadersPerLoop`.              *)
 UpdStep ==
+  /\ fresh' = FALSE
+  /\ UNCHANGED rfaults
   /\ UNCHANGED dirty
   /\ pc = "prune" /\ idx > Len(batch)
   /\ cpLast' = lp
@@ -276,6 +301,8 @@ UpdStep ==
 (* inside the window are deleted.  First critical section of               *)
 (* pruneOnHeaderDelete, service.go:262-278.                                *)
 ODBegin ==
+  /\ fresh' = FALSE
+  /\ UNCHANGED rfaults
   /\ dirty' = SimBias
   /\ pc = "idle" /\ od = 0
   /\ tail < head /\ deletes < MaxDeletes
@@ -297,19 +324,22 @@ ODBegin ==
 (* (service.go:280-298).  Not persisted ("will be done in pruning routine  *)
 (* or Stop").  A failing Prune makes the handler fail: the header stays.   *)
 ODEnd ==
+  /\ fresh' = FALSE
   /\ dirty' = SimBias
   /\ od # 0 /\ pc = "idle"
   /\ od' = 0
   /\ justEnded' = FALSE
   /\ UNCHANGED <<cfgVars, modeVars, head, cpFailed, pVars, cycVars, restarts, deletes,
                  startPt, skipped, dropped>>
-  /\ \E ok \in BOOLEAN :
-       /\ Called(od, ok)
-       /\ IF ok
+  /\ \E o \in {"ok", "fail"} \cup (IF rfaults < MaxReadFaults THEN {"rfail"} ELSE {}) :
+       \* "rfail": GetByHeight of the header being deleted fails: the handler fails, the header stays
+       /\ IF o = "rfail" THEN NoCall ELSE Called(od, o = "ok")
+       /\ rfaults' = IF o = "rfail" THEN rfaults + 1 ELSE rfaults
+       /\ IF o = "ok"
           THEN /\ cpLast' = IF od <= cpLast THEN cpLast ELSE od
                /\ tail' = od + 1
           ELSE UNCHANGED <<cpLast, tail>>
-       /\ Log([n |-> "ODEnd", h |-> od, ok |-> ok])
+       /\ Log([n |-> "ODEnd", h |-> od, ok |-> (o = "ok"), rf |-> (o = "rfail")])
 
 (* Stop (persists the in-memory checkpoint), a new process / Service over  *)
 (* the same datastore, Start (loads the checkpoint, spawns run(), whose    *)
@@ -317,6 +347,8 @@ ODEnd ==
 (* one (once): nodebuilder/pruner/module.go convertToPruned then calls     *)
 (* ResetCheckpoint as soon as it gets the lock.                            *)
 Restart ==
+  /\ fresh' = FALSE
+  /\ UNCHANGED rfaults
   /\ dirty' = SimBias
   /\ pc = "idle" /\ od = 0 /\ restarts < MaxRestarts
   /\ pLast' = cpLast /\ pFailed' = cpFailed                 \* Stop: storeCheckpoint
@@ -334,6 +366,8 @@ Restart ==
 
 (* checkpoint.go:83-93: back to the tail, failed set emptied, persisted.   *)
 ResetCheckpoint ==
+  /\ fresh' = FALSE
+  /\ UNCHANGED rfaults
   /\ dirty' = SimBias
   /\ pc = "idle" /\ resetPending /\ od = 0
   /\ cpLast' = tail /\ cpFailed' = {}
@@ -345,6 +379,8 @@ ResetCheckpoint ==
   /\ Log([n |-> "Reset", h |-> tail, ok |-> TRUE])
 
 HeadAdvance ==
+  /\ fresh' = FALSE
+  /\ UNCHANGED rfaults
   /\ dirty' = SimBias
   /\ head < N
   /\ \/ pc = "idle"
@@ -364,6 +400,7 @@ EnvStep == ODBegin \/ ODEnd \/ Restart \/ ResetCheckpoint \/ HeadAdvance
 
 (* prune(): take the lock, lastPruned().  checkpoint.go:117-136            *)
 CycleBegin ==
+  /\ fresh' = TRUE /\ UNCHANGED rfaults
   /\ pc \in {"idle", "start"}
   /\ SimBias => (dirty \/ pc = "start" \/ cpFailed # {} \/ ~ENABLED EnvStep)
   /\ dirty' = FALSE
@@ -383,8 +420,42 @@ CycleBegin ==
   /\ UNCHANGED <<cfgVars, modeVars, hsVars, pVars, batch, idx, fset, od, restarts, deletes, startPt>>
   /\ Log([n |-> "CycleBegin", h |-> lp', ok |-> TRUE])
 
+(* lastPruned() cannot load what it needs: hstore.Tail fails, or (tail < last) the header of      *)
+(* LastPrunedHeight cannot be read.  prune() logs and returns; nothing changes.                  *)
+CycleAbort ==
+  /\ pc \in {"idle", "start"}
+  /\ rfaults < MaxAbortFaults
+  /\ SimBias => (dirty \/ pc = "start" \/ cpFailed # {})
+  /\ rfaults' = rfaults + 1
+  /\ pc' = "idle"
+  /\ fresh' = FALSE /\ justEnded' = FALSE
+  /\ NoCall
+  /\ UNCHANGED <<cfgVars, modeVars, hsVars, cpVars, pVars, lp, retryTodo, batch, idx, fset, od, restarts, deletes,
+                 startPt, skipped, dropped, dirty>>
+  /\ \E k \in {"tail"} \cup (IF tail < cpLast THEN {"last"} ELSE {}) :
+       Log([n |-> "CycleAbort", h |-> 0, ok |-> FALSE, k |-> k])
+
+(* Stop while the retry pass of a cycle is running: Stop cancels the service context, the Prune  *)
+(* call in flight fails, the header store (which honours the context) fails every further read,  *)
+(* so every remaining failed height is skipped; the loop sees the cancelled context and          *)
+(* returns; Stop persists the checkpoint; a new Service is started over the same datastore.      *)
+(* (Taken as the first step of the retry pass: which height is in flight depends on Go's map     *)
+(* order, all of them stay failed.)                                                              *)
+StopMidRetry ==
+  /\ pc = "retry" /\ fresh /\ retryTodo # {} /\ od = 0 /\ restarts < MaxRestarts
+  /\ \A h \in retryTodo : h \in tail..head
+  /\ Called(Min(retryTodo), FALSE)
+  /\ retryTodo' = {}
+  /\ UNCHANGED cpVars
+  /\ pLast' = cpLast /\ pFailed' = cpFailed
+  /\ pc' = "start"
+  /\ restarts' = restarts + 1
+  /\ fresh' = FALSE /\ justEnded' = FALSE /\ dirty' = SimBias
+  /\ UNCHANGED <<cfgVars, modeVars, hsVars, lp, batch, idx, fset, od, deletes, rfaults, startPt, skipped, dropped>>
+  /\ Log([n |-> "StopMidRetry", h |-> Min(retryTodo), ok |-> FALSE])
+
 CycleStep == RetryStep \/ FindStep \/ PruneStep \/ UpdStep
-Next == CycleBegin \/ CycleStep \/ EnvStep
+Next == CycleBegin \/ CycleAbort \/ CycleStep \/ StopMidRetry \/ EnvStep
 
 Spec == Init /\ [][Next]_vars
 
@@ -422,6 +493,12 @@ CheckpointMonotone ==
 PersistedMonotone ==
   [][pLast' >= pLast \/ (resetPending /\ ~resetPending')]_vars
 
+\* "... or is recorded as failed and retried": a height leaves the failed set only because it was pruned, because
+\* its header is gone (out of the pruner's reach), because a header deletion is about to prune it, or by the
+\* designed reset -- never because a read of the header store failed or the node was stopped
+FailedKept ==
+  [][\A h \in cpFailed \ cpFailed' :
+        h \in okPruned' \/ h < tail' \/ od' = h \/ (resetPending /\ ~resetPending')]_vars
 \* "an archival node's pruning removes only the parity quadrant"
 ArchivalKeepsODS == mode = "archival" => \A h \in 1..N : store[h] \in {"odsq4", "ods"}
 
